@@ -1000,45 +1000,10 @@ func ruleTLSConfig(c *Ctx, rid string) {
 			c.bad(rid, "tls.Config/"+f, pos, f+" is set: it can accept a peer the CA check would refuse")
 		}
 	}
-	pool := strip(fields["ClientCAs"])
-	pc, isCall := pool.(*ssa.Call)
-	if isCall && calleeName(pc.Common()) != "crypto/x509.NewCertPool" {
-		// a helper of the repository that creates the pool and returns it
-		if h := staticCallee(pc.Common()); h != nil && inRepo(h) && h.Blocks != nil {
-			if rets := returnsOf(h); len(rets) == 1 && len(rets[0].Results) >= 1 {
-				if inner, ok := strip(retOperand(rets[0], 0)).(*ssa.Call); ok {
-					pc = inner
-				}
-			}
-		}
-	}
-	poolOK := isCall && calleeName(pc.Common()) == "crypto/x509.NewCertPool"
-	if !poolOK {
-		c.bad(rid, "tls.Config/ClientCAs", pos, "ClientCAs is not a pool freshly created with x509.NewCertPool(): CAs other than the configured one (e.g. the system roots) are trusted for client certificates")
+	fresh, okAppend, extra, why := caPoolProvenance(strip(fields["ClientCAs"]), 0)
+	if !fresh {
+		c.bad(rid, "tls.Config/ClientCAs", pos, "ClientCAs is not a pool freshly created with x509.NewCertPool(): CAs other than the configured one (e.g. the system roots) are trusted for client certificates"+why)
 	} else {
-		// appended certificates: only AppendCertsFromPEM(pool, ConfigTLSCACert()#0); no AddCert of other origin
-		okAppend, extra := false, false
-		if pc.Referrers() != nil {
-			for _, r := range *pc.Referrers() {
-				call, ok := r.(*ssa.Call)
-				if !ok {
-					continue
-				}
-				switch calleeName(call.Common()) {
-				case "(*crypto/x509.CertPool).AppendCertsFromPEM":
-					src := strip(call.Common().Args[1])
-					if ex, ok := src.(*ssa.Extract); ok && ex.Index == 0 {
-						if cl, ok := ex.Tuple.(*ssa.Call); ok && strings.HasSuffix(calleeName(cl.Common()), "ConfigTLSCACert") {
-							okAppend = true
-							continue
-						}
-					}
-					extra = true
-				case "(*crypto/x509.CertPool).AddCert", "(*crypto/x509.CertPool).AddCertWithConstraint":
-					extra = true
-				}
-			}
-		}
 		c.check(okAppend && !extra, rid, "tls.Config/ClientCAs", pos, "fresh pool holding the configured CA only", "the client CA pool does not consist of exactly the configured CA certificate(s)")
 	}
 	// tls.Server wrapping in the TLS connection root
@@ -1669,4 +1634,109 @@ func ruleAuthenticatorsReadOnly(c *Ctx, rid string) {
 	}
 	c.count("authenticator-implementations", n)
 	c.floor("authenticator-implementations", 2)
+}
+
+// caPoolProvenance: v is a pool created by x509.NewCertPool() in this call chain (directly, or
+// as the result of repository helpers every pool-returning path of which creates it that way);
+// okAppend: the configured CA bytes (ConfigTLSCACert()#0) are appended to it; extra: anything
+// else is added (AddCert, bytes of another origin).
+func caPoolProvenance(v ssa.Value, depth int) (fresh, okAppend, extra bool, why string) {
+	if v == nil || depth > 3 {
+		return false, false, false, ""
+	}
+	switch x := v.(type) {
+	case *ssa.Extract:
+		if x.Index != 0 {
+			return false, false, false, ""
+		}
+		return caPoolProvenance(x.Tuple, depth)
+	case *ssa.Call:
+		n := calleeName(x.Common())
+		if n == "crypto/x509.NewCertPool" {
+			okA, ex := poolAdditions(x, depth)
+			return true, okA, ex, ""
+		}
+		h := staticCallee(x.Common())
+		if h == nil || !inRepo(h) || h.Blocks == nil {
+			return false, false, false, " (obtained from " + n + ")"
+		}
+		any := false
+		fresh, okAppend = true, true
+		for _, r := range returnsOf(h) {
+			if len(r.Results) == 0 {
+				continue
+			}
+			rv := strip(retOperand(r, 0))
+			if cst, isC := rv.(*ssa.Const); isC && cst.IsNil() {
+				continue
+			}
+			any = true
+			f, a, e, w := caPoolProvenance(rv, depth+1)
+			if !f {
+				return false, false, false, w
+			}
+			okAppend = okAppend && a
+			extra = extra || e
+		}
+		if !any {
+			return false, false, false, ""
+		}
+		// additions made by the caller to the returned pool
+		okA2, ex2 := poolAdditions(v, depth)
+		return true, okAppend || okA2, extra || ex2, ""
+	case *ssa.Phi:
+		fresh, okAppend = true, true
+		for _, e := range x.Edges {
+			f, a, ex, w := caPoolProvenance(strip(e), depth+1)
+			if !f {
+				return false, false, false, w
+			}
+			okAppend = okAppend && a
+			extra = extra || ex
+		}
+		return fresh, okAppend, extra, ""
+	}
+	return false, false, false, ""
+}
+
+// poolAdditions: what is added to the pool value v by its users (and by repository helpers it
+// is handed to).
+func poolAdditions(v ssa.Value, depth int) (okAppend, extra bool) {
+	if v.Referrers() == nil || depth > 3 {
+		return false, false
+	}
+	for _, r := range *v.Referrers() {
+		if ex, ok := r.(*ssa.Extract); ok && ex.Index == 0 {
+			a, e := poolAdditions(ex, depth)
+			okAppend, extra = okAppend || a, extra || e
+			continue
+		}
+		call, ok := r.(*ssa.Call)
+		if !ok {
+			continue
+		}
+		switch calleeName(call.Common()) {
+		case "(*crypto/x509.CertPool).AppendCertsFromPEM":
+			src := strip(call.Common().Args[1])
+			if ex, ok := src.(*ssa.Extract); ok && ex.Index == 0 {
+				if cl, ok := ex.Tuple.(*ssa.Call); ok && strings.HasSuffix(calleeName(cl.Common()), "ConfigTLSCACert") {
+					okAppend = true
+					continue
+				}
+			}
+			extra = true
+		case "(*crypto/x509.CertPool).AddCert", "(*crypto/x509.CertPool).AddCertWithConstraint":
+			extra = true
+		default:
+			if h := staticCallee(call.Common()); h != nil && inRepo(h) && h.Blocks != nil {
+				for i, a := range call.Common().Args {
+					if strip(a) == v && i < len(h.Params) {
+						a2, e2 := poolAdditions(h.Params[i], depth+1)
+						okAppend, extra = okAppend || a2, extra || e2
+					}
+				}
+			}
+		}
+	}
+	return okAppend, extra
 }
